@@ -8,7 +8,6 @@ from xknx.cemi.flags import CEMIAddressType, CEMIFrameFormat
 from xknx.exceptions import DataSecureError
 from xknx.secure.data_secure_asdu import SecureData, SecurityControlField
 from xknx.telegram import GroupAddress, Telegram, tpci
-from xknx.telegram.apci import APCI
 
 LEVEL = "exploration"
 TECHNIQUE = (
@@ -136,7 +135,7 @@ def _case(ctx, spec):
                     "reference": expected[:40], "xknx": None if got is None else bytes(got)[:40]})
 
 
-def _frame_case(ctx, rng, loop_unused=None):
+def _frame_case(ctx, rng):
     """Whole frame produced by DataSecure.outgoing_cemi vs the reference frame builder."""
     from vlib.ds_harness import group_payload
 
@@ -155,8 +154,6 @@ def _frame_case(ctx, rng, loop_unused=None):
     ctx.check(raw == expected, "outgoing-frame-octets-differ-from-reference",
               {"key": key, "sa": sa, "da": da, "seq": seq, "apdu": apdu, "xknx": raw, "reference": expected},
               f"outgoing_cemi frame {raw.hex()[:70]} != reference {expected.hex()[:70]}")
-    again = APCI.from_knx(apdu)  # keep linters quiet about unused import, and sanity of the payload itself
-    assert again is not None
 
 
 def _spec(rng, length, alg, scfs, tp):
